@@ -42,7 +42,6 @@ def nodeText : Node → String
   | .hidden h => "hidden," ++ hex32 h
 
 def isWitness : Node → Bool | .witness => true | _ => false
-def isCase : Node → Bool | .case _ _ => true | _ => false
 
 structure Pruned where
   plan : Plan
@@ -116,12 +115,7 @@ def Pruned.antiDos (q : Pruned) (ex : Extras) : String :=
       match evalT t (labOf q.plan ids (q.plan.size + 1) (q.plan.size - 1)) .unit with
       | .error _ => "model-pruned-run-fails"
       | .ok (_, tr) =>
-        let okAll := (List.range q.plan.size).all fun i =>
-          !(q.reach.getD i false) ||
-            (tr.nodes.contains (ids i) &&
-              (!(isCase (q.plan.getD i .unit)) ||
-                (tr.sides.contains (ids i, false) && tr.sides.contains (ids i, true))))
-        if okAll then "ok" else "rejected"
+        if antiDosOK q.plan q.reach ids tr then "ok" else "rejected"
 
 def showPruned (q : Pruned) (ex : Extras) : String :=
   let toks := (List.range q.plan.size).map fun i =>
